@@ -7,7 +7,15 @@ Oracle of the `csv` suite (property C20).
                      `ok h=<hex>|<hex>… dims=<cols>x<rows>|panic rows=<cell>|<cell>…;<cell>…`
 
   `cast x<hex>`  ->  `<cell>`      one field through `BaseCaster.Cast`
+  `loadtc x<hex of the text> x<hex of a text heading>…`  ->  as `load`
+                     (`ParseCsvTextIntoTableWithTextColumns`; zero or more headings)
+  `hist <step> / <step> …`   several loads into ONE data set; step = `n<hex of the table name> x<hex of
+                     the text> x<hex of a text heading>…`; answer = per step, joined by ` / `:
+                     `e=<class of the error this load added, or -> n=<errors so far> t=<none | ok …>`
+                     (`t` = `Table(name)` after the step), or `panic` for the whole line
   `meta x<hex> x<hex>` -> `go-only`  (degenerate meta files through DataSet.Load; no model)
+  `castgo x<hex>` -> `go-only`     (a literal outside the model's scope, `mantDigits > 800`; the harness
+                     judges it against strconv only; `go-only-BUT-IN-SCOPE` if it is in scope after all)
 
 a cell is `<kind>/<CellString>/<CellFloat64>`:
   kind        `n<16 hex bits>` float64, `b0`/`b1` bool, `t<hex>` string
@@ -59,18 +67,66 @@ def errStr : CsvErr → String
   | .bareQuote => "bareQuote"
   | .quote => "quote"
   | .fieldCount => "fieldCount"
-  | .noRecords => "other"      -- not an encoding/csv ParseError
+  | .noRecords => "noRecords"  -- not an encoding/csv ParseError: crem's own "csv content has no header record"
 
-def loadStr (text : Bytes) : String :=
-  match load text with
+def tableStr (t : Table) : String :=
+  let h := "|".intercalate (t.header.map toHex)
+  let dims := match columnAndRowSize t with
+    | (c, r) => s!"{c}x{r}"
+  let rows := ";".intercalate (t.cells.map (fun row => "|".intercalate (row.map cellStr)))
+  s!"ok h={h} dims={dims} rows={rows}"
+
+def loadResultStr : Load → String
   | .error e => "err:" ++ errStr e
   | .panic .cellIndex => "panic:assignTableContent"
-  | .ok t =>
-    let h := "|".intercalate (t.header.map toHex)
-    let dims := match columnAndRowSize t with
-      | (c, r) => s!"{c}x{r}"
-    let rows := ";".intercalate (t.cells.map (fun row => "|".intercalate (row.map cellStr)))
-    s!"ok h={h} dims={dims} rows={rows}"
+  | .ok t => tableStr t
+
+def loadStr (text : Bytes) : String := loadResultStr (load text)
+
+def xArg (arg : String) : Option Bytes :=
+  match arg.toList with
+  | 'x' :: hex => parseHex hex
+  | _ => none
+
+def dsErrStr : DsErr → String
+  | .csv e => errStr e
+  | .duplicateTable => "duplicateTable"
+
+/-- one step of a `hist` line: `n<hex> x<hex> x<hex>…` -/
+def histStep (ds : DataSet) (ws : List String) : Option (DataSet × String) :=
+  match ws with
+  | nameArg :: textArg :: hs =>
+    match nameArg.toList, xArg textArg, hs.mapM xArg with
+    | 'n' :: nhex, some text, some ths =>
+      match parseHex nhex with
+      | none => none
+      | some name =>
+        match DataSet.parseInto true ds name ths text with
+        | none => none
+        | some ds' =>
+          let e := if ds'.errors.length > ds.errors.length then
+              (match ds'.errors.getLast? with | some e => dsErrStr e | none => "?") else "-"
+          let t := match ds'.table? name with
+            | some t => tableStr t
+            | none => "none"
+          some (ds', s!"e={e} n={ds'.errors.length} t={t}")
+    | _, _, _ => none
+  | _ => none
+
+def splitSteps (ws : List String) : List (List String) :=
+  let (cur, acc) := ws.foldr (fun w (p : List String × List (List String)) =>
+    if w == "/" then ([], p.1 :: p.2) else (w :: p.1, p.2)) ([], [])
+  cur :: acc
+
+def histStr (ws : List String) : String :=
+  let rec go (ds : DataSet) (steps : List (List String)) (out : List String) : String :=
+    match steps with
+    | [] => " / ".intercalate out.reverse
+    | st :: rest =>
+      match histStep ds st with
+      | none => "panic-or-bad-op"
+      | some (ds', o) => go ds' rest (o :: out)
+  go {} (splitSteps ws) []
 
 /-- `cast x<hex>` -> the cell one field is cast to (cast grammar stream) -/
 def step (line : String) : String :=
@@ -89,7 +145,16 @@ def step (line : String) : String :=
       | some bs => cellStr (cast bs)
       | none => "bad-op"
     | _ => "bad-op"
+  | "loadtc" :: textArg :: hs =>
+    match xArg textArg, hs.mapM xArg with
+    | some text, some ths => loadResultStr (loadT ths text)
+    | _, _ => "bad-op"
+  | "hist" :: ws => histStr ws
   | ["meta", _, _] => "go-only"     -- DataSet.Load on files: judged on the Go side only
+  | ["castgo", arg] =>
+    match xArg arg with
+    | some bs => if mantDigits bs > 800 then "go-only" else "go-only-BUT-IN-SCOPE"
+    | none => "bad-op"
   | _ => "bad-op"
 
 end Driver.Csv
